@@ -7,7 +7,8 @@ EXTENDS Fetch, Json
 
 CONSTANTS Family,     \* which scenario families the initial states are drawn from (set of names)
           Junks,      \* tampering of plain references to combine with (subset of none/extra/moved/missing)
-          DelCount    \* C02 product: numbers of delegates to enumerate (subset of 1..N)
+          DelCount,   \* C02 product: numbers of delegates to enumerate (subset of 1..N)
+          LocalChoices \* C02 product: who the local node is (subset of 0..N; 0 = no namespace here)
 
 SigCs == [ver : Vers, fl : Flavours]
 Rids  == {"none", "i1", "i2", "i2f"}
@@ -19,6 +20,8 @@ V(ver) == [ver |-> ver, fl |-> "ok"]
 Sc(m, dels, t, lo, bl, fa, fo, ura, ra) ==
     [mode |-> m, delegates |-> dels, threshold |-> t, local |-> lo, blocked |-> bl,
      followAll |-> fa, followed |-> fo, useRefsAt |-> ura, refsAt |-> ra]
+
+Use(x) == sc = x.sc /\ srv = x.srv /\ loc0 = x.loc
 
 -----------------------------------------------------------------------------
 \* Family "focus" (C01): delegates {1,2}; one focus namespace -- 2 (a delegate) or 3 (not a
@@ -32,7 +35,6 @@ FocusOne(m, t, f, fs, fl) ==
     [sc  |-> Sc(m, {1, 2}, t, 0, {}, TRUE, {}, FALSE, {}),
      srv |-> [ns \in NS |-> IF ns = f THEN fs ELSE IF ns = 1 THEN Honest("v2") ELSE Honest("v1")],
      loc |-> [ns \in NS |-> LocOf(IF m = "clone" THEN NoSig ELSE IF ns = f THEN fl ELSE V("v1"))]]
-Use(x) == sc = x.sc /\ srv = x.srv /\ loc0 = x.loc
 FocusInit ==
     \E m \in {"clone", "pull"}, t \in {1, 2}, f \in {2, 3}, fs \in FocusSrv, fl \in FocusLoc :
         (m = "clone" => fl = NoSig) /\ Use(FocusOne(m, t, f, fs, fl))
@@ -52,6 +54,22 @@ RefsAtInit ==
     \E f \in {2, 3}, av \in Vers, fs \in RefsAtSrv, fl \in FocusLoc, bl \in {{}, {2}, {3}},
        lo \in {0, 2, 3}, both \in BOOLEAN :
         Use(RefsAtOne(f, av, fs, fl, bl, lo, both))
+
+\* Family "pair" (C01): both namespace 2 (delegate) and 3 (not a delegate) tampered with at once,
+\* from a reduced set of offers, pull only.
+PairSrv == {[sig |-> [ver |-> "v2", fl |-> f], rid |-> "i2", junk |-> "none"] : f \in Flavours \ {"noId"}}
+           \cup {Honest("v1"), Honest("v2f"), Absent,
+                 [sig |-> [ver |-> "v2", fl |-> "noId"], rid |-> "none", junk |-> "none"],
+                 [sig |-> [ver |-> "v2", fl |-> "noId"], rid |-> "i2", junk |-> "none"],
+                 [sig |-> [ver |-> "v2", fl |-> "ok"], rid |-> "i2f", junk |-> "moved"],
+                 [sig |-> NoSig, rid |-> "i1", junk |-> "none"]}
+PairOne(t, s2, s3, l2, l3) ==
+    [sc  |-> Sc("pull", {1, 2}, t, 0, {}, TRUE, {}, FALSE, {}),
+     srv |-> [ns \in NS |-> IF ns = 2 THEN s2 ELSE IF ns = 3 THEN s3 ELSE Honest("v2")],
+     loc |-> [ns \in NS |-> LocOf(IF ns = 2 THEN l2 ELSE IF ns = 3 THEN l3 ELSE V("v1"))]]
+PairInit ==
+    \E t \in {1, 2}, s2 \in PairSrv, s3 \in PairSrv, l2 \in {NoSig, V("v1"), V("v2")}, l3 \in {NoSig, V("v1"), V("v2")} :
+        Use(PairOne(t, s2, s3, l2, l3))
 
 \* Family "scope" (C01): followed scope, block list, own namespace -- who is asked for at all.
 ScopeOne(m, fo, bl, lo, s3, l3) ==
@@ -89,7 +107,7 @@ DelOne(m, k, t, lo, sts) ==
      loc |-> [ns \in NS |-> LocOf(IF m = "clone" THEN NoSig ELSE IF ns <= k THEN DelLoc(sts[ns]) ELSE NoSig)]]
 \* (for a clone nothing is stored: states with the same offer collapse into one scenario)
 DelInit ==
-    \E k \in DelCount : \E m \in {"clone", "pull"}, t \in 1..k, lo \in 0..N, sts \in [1..k -> DelStates] :
+    \E k \in DelCount : \E m \in {"clone", "pull"}, t \in 1..k, lo \in LocalChoices, sts \in [1..k -> DelStates] :
         Use(DelOne(m, k, t, lo, sts))
 
 \* Family "blockdel" (C02): a blocked delegate does not count, and is not written.
@@ -104,6 +122,7 @@ MCInit ==
     /\ \/ ("focus" \in Family /\ FocusInit)
        \/ ("refsat" \in Family /\ RefsAtInit)
        \/ ("scope" \in Family /\ ScopeInit)
+       \/ ("pair" \in Family /\ PairInit)
        \/ ("delegates" \in Family /\ DelInit)
        \/ ("blockdel" \in Family /\ BlockDelInit)
     /\ Start
